@@ -285,7 +285,39 @@ func c03Mutations(r *Rng, base []byte, n int, thorough bool) [][]byte {
 		}
 		out = append(out, m)
 	}
+	out = append(out, c03Reframes(r, base)...)
 	out = append(out, nil, []byte{})
+	return out
+}
+
+// c03Reframes: for every position that plausibly holds a length field (QUIC varint or big-endian uint16) covering a
+// large part of what follows, the covered region grown by 1..3 stray bytes or shrunk by 1..3 bytes *with the length
+// field adjusted to match* — so that the stray or missing bytes are inside the declared length, not behind it.
+func c03Reframes(r *Rng, base []byte) [][]byte {
+	var out [][]byte
+	emit := func(off, hdr int, v uint64, enc func(uint64) []byte) {
+		end := off + hdr + int(v)
+		for _, k := range []int{1, 2, 3} {
+			grown := append(append(append(append([]byte{}, base[:off]...), enc(v+uint64(k))...), base[off+hdr:end]...), r.Bytes(k)...)
+			out = append(out, append(grown, base[end:]...))
+			if int(v) > k {
+				shrunk := append(append(append([]byte{}, base[:off]...), enc(v-uint64(k))...), base[off+hdr:end-k]...)
+				out = append(out, append(shrunk, base[end:]...))
+			}
+		}
+	}
+	for off := 0; off < len(base) && off < 300; off++ {
+		rest := len(base) - off
+		if v, n := quicwire.ConsumeVarint(base[off:]); n > 0 && v > 0 && n+int(v) <= rest && 2*(n+int(v)) >= rest && v < 1<<20 {
+			emit(off, n, v, refEnc)
+		}
+		if rest >= 2 {
+			v := uint64(base[off])<<8 | uint64(base[off+1])
+			if v > 0 && 2+int(v) <= rest && 2*(2+int(v)) >= rest && v+3 < 65536 {
+				emit(off, 2, v, func(x uint64) []byte { return []byte{byte(x >> 8), byte(x)} })
+			}
+		}
+	}
 	return out
 }
 
